@@ -108,6 +108,10 @@ fn victims() -> Vec<(&'static str, Op, bool)> {
         ("hard_link", Op::Extract { kind: XKind::HardLink, checked: true, by: By::Key(1), dest: Dest::Absent }, true),
         // onto an existing file of exactly the entry's length (other bytes): a failure to open or
         // write it leaves a file that has the right size and the wrong bytes
+        // the destination already is a hard link of the entry's content file (the second of two
+        // identical calls): whatever the failing call falls back to must not empty that file
+        ("hard_link_onto_own_link", Op::Extract { kind: XKind::HardLink, checked: true, by: By::Key(1), dest: Dest::LinkOfContent }, true),
+        ("copy_onto_own_link", Op::Extract { kind: XKind::Copy, checked: true, by: By::Key(1), dest: Dest::LinkOfContent }, true),
         ("copy_onto_same_length_file", Op::Extract { kind: XKind::Copy, checked: true, by: By::Key(1), dest: Dest::ExistingSameLength }, true),
         ("copy_hash_unchecked_onto_same_length_file", Op::Extract { kind: XKind::Copy, checked: false, by: By::Addr(a), dest: Dest::ExistingSameLength }, true),
         ("remove", Op::Remove { key: 1 }, true),
